@@ -1359,7 +1359,14 @@ class Py2Cpp(ITranspiler):
 
 		if isinstance(node.iterates, defs.FuncCall) and isinstance(node.iterates.calls, defs.Var) and node.iterates.calls.tokens in [range.__name__, enumerate.__name__]:
 			spec = node.iterates.calls.tokens
-			return self.render(node, f'comp/{node.classification}_{spec}', vars={'symbols': symbols, 'iterates': for_in, 'is_const': is_const, 'is_addr_raw': is_addr_raw})
+			range_vars: dict[str, str] = {}
+			if spec == range.__name__:
+				# 期待値: 'range(size)' / 'range(begin, size)' / 'range(begin, size, step)'。実引数は構文木から個別にトランスパイルする (proc_for_rangeと同様)
+				args = [self.transpile(argument) for argument in node.iterates.arguments]
+				begin, size, step = ('0', args[0], '') if len(args) == 1 else (args[0], args[1], '') if len(args) == 2 else (args[0], args[1], args[2])
+				range_vars = {'begin': begin, 'size': size, 'step': step}
+
+			return self.render(node, f'comp/{node.classification}_{spec}', vars={'symbols': symbols, 'iterates': for_in, 'is_const': is_const, 'is_addr_raw': is_addr_raw, **range_vars})
 		elif isinstance(node.iterates, defs.FuncCall) and isinstance(node.iterates.calls, defs.Relay) \
 			and node.iterates.calls.prop.tokens in FuncCallSpec.dict_iter_methods \
 			and self.reflections.type_of(node.iterates.calls.receiver).impl(refs.Object).actualize().type_is(dict):
